@@ -237,6 +237,7 @@ func runC01(t *testing.T, e *worlds.Env, tier string) (bool, any) {
 			e.N.Cfg.Window = 1500 // keep step counts of large streams bounded
 		}
 		o.appLen = appLen
+		tls12 := false
 		usePP := e.T.Prob(1, 4, "pre-pp")
 		useTLS := e.T.Prob(1, 6, "pre-tls")
 		spec = &RLSpec{}
@@ -274,6 +275,12 @@ func runC01(t *testing.T, e *worlds.Env, tier string) (bool, any) {
 		if useTLS {
 			prelude += "tls"
 			plan.TLS = &tls.Config{InsecureSkipVerify: true, ServerName: "a.sim.test"}
+			if e.T.Prob(1, 2, "tls12") {
+				// TLS 1.2: a client that writes and closes at once makes tls.Conn.Read
+				// return the last bytes together with io.EOF (legal for an io.Reader)
+				plan.TLS.MaxVersion = tls.VersionTLS12
+				tls12 = true
+			}
 			spec.Routes = append(spec.Routes, RSpec{Sets: preMatch("tls"), Handlers: []HSpec{{Kind: "tls", Name: "tls"}}})
 		}
 		body := genRouteList(e, b, o, 0)
@@ -291,7 +298,11 @@ func runC01(t *testing.T, e *worlds.Env, tier string) (bool, any) {
 		routes := b.RouteList(spec, "chain="+sig)
 		// client schedule; keep total delay well under the matching timeout
 		plan.Chunks = e.MakeChunks(appLen, 20*time.Millisecond)
-		switch e.T.Weighted("client-end", 6, 2, 1, 1) {
+		endW := []int{6, 2, 1, 1}
+		if tls12 {
+			endW = []int{2, 6, 1, 1} // mostly: write everything, then close at once
+		}
+		switch e.T.Weighted("client-end", endW...) {
 		case 0:
 			plan.End = worlds.EndHalfClose
 		case 1:
